@@ -1,6 +1,7 @@
 (* C08: the generic theorems of ListingThm.v instantiated with the code translated from /repo (Generated/Gen_Listing.v).
    The decidable conditions are discharged by computation over all 4 * 2^8 flag combinations (and both values of the
-   namespace-type decision): an edit of cli/runners.py that makes the modes disagree makes one of these Qed's fail. *)
+   namespace-type decision): an edit of cli/runners.py that makes the modes disagree makes one of these Qed's fail;
+   `the_guards` fails when the effect scan of the listing / dry-run call path finds an effect outside the dry-run guards. *)
 From Coq Require Import List NArith Bool.
 From Verif Require Import Str Listing ListingThm Gen_Listing.
 Import ListNotations.
@@ -30,7 +31,9 @@ Proof. intros. apply (list_modes_pure_gen the_code the_guards the_chk_pure). ass
 
 Theorem list_outputs_exact_thm : forall c i, f_lc (c_flags c) = false ->
   forall f' out', run the_code (real_of c) i fs_empty = (f', out', Ok) ->
-  forall f, exists out, run the_code (lo_of c) i f = (f, out, Ok) /\ (forall p, In p out <-> f' p = true).
+  forall f, exists out, run the_code (lo_of c) i f = (f, out, Ok)
+    /\ (forall p, In p out <-> is_file (f' p) = true)
+    /\ (forall q, is_dir (f' q) = true -> exists p, In p out /\ path_in q (parents p) = true).
 Proof. intros c i. apply (list_outputs_exact_gen the_code the_guards the_chk_outputs the_chk_stable). Qed.
 
 Theorem list_inputs_partial_thm : forall c i, f_lc (c_flags c) = false -> rejected c = false ->
@@ -38,87 +41,78 @@ Theorem list_inputs_partial_thm : forall c i, f_lc (c_flags c) = false -> reject
   (k_fix_suptpl the_code || support_consistent c) = true ->
   forall x, In x (influence_set the_code c i) ->
   forall f, exists out, run the_code (li_of c) i f = (f, out, Ok) /\ In x out.
-Proof. intros c i. apply (list_inputs_partial_gen the_code the_chk_inputs the_chk_stable). Qed.
+Proof. intros c i. apply (list_inputs_partial_gen the_code the_guards the_chk_inputs the_chk_stable). Qed.
 
-(* the full statement, live on a tree that has the three repairs (design_notes/C08_fix_*.patch): the only inputs --list-inputs
-   can then miss are Python package files loaded as templates *)
 Theorem list_inputs_complete_thm :
   k_fix_lookup the_code = true -> k_fix_nonj2 the_code = true -> k_fix_suptpl the_code = true ->
-  forall c i, f_lc (c_flags c) = false -> rejected c = false -> trig_py c i = false ->
-  forall x, In x (influence_set the_code c i) ->
+  forall c i, f_lc (c_flags c) = false -> rejected c = false -> trig_py the_code c i = false -> trig_sup_refs the_code c = false ->
+  forall x, In x (all_influences the_code c i) -> is_config_input c x = false ->
   forall f, exists out, run the_code (li_of c) i f = (f, out, Ok) /\ In x out.
-Proof. exact (list_inputs_complete_gen the_code the_chk_inputs the_chk_stable). Qed.
+Proof. exact (list_inputs_complete_gen the_code the_guards the_chk_inputs the_chk_stable). Qed.
 
 (* the argparse rule: --omit-serialization-support with --generate-support always is refused before anything happens *)
 Theorem rejected_does_nothing : forall c i f, rejected c = true -> run the_code c i f = (f, [], Rejected).
 Proof. intros c i f H. unfold run. unfold rejected in H. rewrite H. reflexivity. Qed.
 
 (* ---- witnesses (a made-up language so that they depend on the translated code only) -------- *)
-Definition w_tf (n : N) (j2 : bool) (cl : option cls) : tfile := {| tf_name := [n]; tf_path := [[112]; [n]]; tf_j2 := j2; tf_py := false; tf_cls := cl |}.
+Definition w_tfr (n : N) (j2 : bool) (cl : option cls) (refs : list str) : tfile :=
+  {| tf_name := [n]; tf_path := [[112]; [n]]; tf_j2 := j2; tf_py := false; tf_cls := cl; tf_refs := refs; tf_dyn := false |}.
+Definition w_tf (n : N) (j2 : bool) (cl : option cls) : tfile := w_tfr n j2 cl [].
 Definition w_res : sres := {| sr_name := [115]; sr_stem := [115]; sr_j2 := true; sr_path := [[112]; [115]] |}.
+(* templates p/A (class Any, includes b) and p/b; an unreferenced p/u *)
 Definition w_lang : langinfo := {|
   l_ext := [46; 104]; l_stem := [95]; l_std_ns := false; l_support_ns := [[110]];
-  l_templates := [w_tf 65 true (Some CAny); w_tf 98 true None];
+  l_templates := [w_tfr 65 true (Some CAny) [[98]]; w_tf 98 true None; w_tf 117 true None];
   l_support_dir := [w_tf 115 true None];
-  l_sup_ser := [w_res]; l_sup_type := [] |}.
+  l_sup_ser := [w_res]; l_sup_type := []; l_properties := [[121]] |}.
 Definition w_flags (m : smode) (omit : bool) : flags :=
   {| f_support := m; f_omit := omit; f_ns := false; f_dry := false; f_lo := false; f_li := false; f_lc := false;
      f_now := false; f_embed := false |}.
 Definition w_cfg (m : smode) (omit : bool) (tpl sup : option (list tfile)) : cfg :=
   {| c_lang := w_lang; c_flags := w_flags m omit; c_ext := None; c_stem := None; c_templates := tpl;
-     c_support_templates := sup; c_outdir := [[111]] |}.
+     c_support_templates := sup; c_config_files := [[[99]]]; c_outdir := [[111]] |}.
 Definition w_type (key : N) (ns name : N) (deps : list N) : dtype :=
   {| t_key := key; t_ns := [[ns]]; t_stem := [name]; t_kind := KStructure; t_src := [[ns]; [name]]; t_deps := deps |}.
 (* root namespace r with r.A using l.D from a lookup directory *)
 Definition w_inputs_lookup : inputs :=
-  {| i_roots := [w_type 1 114 65 [2]]; i_lookup := [w_type 2 108 68 []]; i_root_dir := [[114]]; i_loaded_types := [[65]; [98]] |}.
+  {| i_roots := [w_type 1 114 65 [2]]; i_lookup := [w_type 2 108 68 []]; i_root_dir := [[114]] |}.
 Definition w_inputs_plain : inputs :=
-  {| i_roots := [w_type 1 114 65 [3]; w_type 3 114 66 []]; i_lookup := []; i_root_dir := [[114]]; i_loaded_types := [[65]; [98]] |}.
+  {| i_roots := [w_type 1 114 65 [3]; w_type 3 114 66 []]; i_lookup := []; i_root_dir := [[114]] |}.
 
 Definition listed (c : cfg) (i : inputs) : list path := snd (fst (run the_code (li_of c) i fs_empty)).
 
-(* F-LIST-INPUTS-LOOKUP: the .dsdl of a --lookup-dir dependency influences the output and is not listed *)
-Lemma list_inputs_lookup_refuted_w : k_fix_lookup the_code = false ->
-  let c := w_cfg SAsNeeded false None None in let x := [[108]; [68]] in
-  trig_lookup w_inputs_lookup = true /\ trig_nonj2 c w_inputs_lookup = false /\ trig_support_override the_code c = false
-  /\ path_in x (influence_set the_code c w_inputs_lookup) = true /\ path_in x (listed c w_inputs_lookup) = false.
-Proof. intros H. vm_compute in H. first [discriminate H | vm_compute; repeat split; reflexivity]. Qed.
-
-(* F-LIST-INPUTS-NONJ2: a template file without the .j2 suffix that the environment loads (html: namespace_base.js and the files under assets) *)
-Definition w_tpl_nonj2 : list tfile := [w_tf 65 true (Some CAny); w_tf 120 false None].
-Definition w_inputs_nonj2 : inputs :=
-  {| i_roots := [w_type 1 114 65 []]; i_lookup := []; i_root_dir := [[114]]; i_loaded_types := [[65]; [120]] |}.
-Lemma list_inputs_nonj2_refuted_w : k_fix_nonj2 the_code = false ->
-  let c := w_cfg SAsNeeded false (Some w_tpl_nonj2) None in let x := [[112]; [120]] in
-  trig_lookup w_inputs_nonj2 = false /\ trig_nonj2 c w_inputs_nonj2 = true /\ trig_support_override the_code c = false
-  /\ path_in x (influence_set the_code c w_inputs_nonj2) = true /\ path_in x (listed c w_inputs_nonj2) = false.
-Proof. intros H. vm_compute in H. first [discriminate H | vm_compute; repeat split; reflexivity]. Qed.
-
-(* F-LIST-INPUTS-SUPTPL: --support-templates DIR shadows the packaged support template; the packaged one is listed *)
-Definition w_sup_dir : list tfile := [{| tf_name := [115]; tf_path := [[100]; [115]]; tf_j2 := true; tf_py := false; tf_cls := None |}].
-Lemma list_inputs_support_override_refuted_w : k_fix_suptpl the_code = false ->
-  let c := w_cfg SAsNeeded false None (Some w_sup_dir) in let x := [[100]; [115]] in
-  trig_lookup w_inputs_plain = false /\ trig_nonj2 c w_inputs_plain = false /\ trig_support_override the_code c = true
-  /\ path_in x (influence_set the_code c w_inputs_plain) = true /\ path_in x (listed c w_inputs_plain) = false.
-Proof. intros H. vm_compute in H. first [discriminate H | vm_compute; repeat split; reflexivity]. Qed.
-
-(* non-vacuity: a real run that succeeds and creates type and support files; its listing; the hypotheses of the partial theorem *)
-Definition created (c : cfg) (i : inputs) (p : path) : bool := fst (fst (run the_code (real_of c) i fs_empty)) p.
+(* non-vacuity: a real run that succeeds and creates type and support files and their directories; its listing *)
+Definition created (c : cfg) (i : inputs) (p : path) : option entry := fst (fst (run the_code (real_of c) i fs_empty)) p.
 Lemma example_real_run :
   let c := w_cfg SAsNeeded false None None in
   snd (run the_code (real_of c) w_inputs_plain fs_empty) = Ok
-  /\ created c w_inputs_plain [[111]; [114]; [65; 46; 104]] = true
-  /\ created c w_inputs_plain [[111]; [110]; [115; 46; 104]] = true
+  /\ is_file (created c w_inputs_plain [[111]; [114]; [65; 46; 104]]) = true
+  /\ is_file (created c w_inputs_plain [[111]; [110]; [115; 46; 104]]) = true
+  /\ is_dir (created c w_inputs_plain [[111]; [114]]) = true
   /\ forallb (fun p => path_in p (snd (fst (run the_code (lo_of c) w_inputs_plain fs_empty))))
              [[[111]; [114]; [65; 46; 104]]; [[111]; [114]; [66; 46; 104]]; [[111]; [110]; [115; 46; 104]]] = true
   /\ length (snd (fst (run the_code (lo_of c) w_inputs_plain fs_empty))) = 3%nat.
 Proof. vm_compute. repeat split; reflexivity. Qed.
 
+(* the hypotheses of the completeness theorems are satisfiable, the derived closure follows the include p/A -> p/b, leaves the
+   unreferenced p/u out, contains the dependency r/B *)
 Lemma example_partial_hyps :
   let c := w_cfg SAsNeeded false None None in
   rejected c = false /\ eff_trig_lookup the_code w_inputs_plain = false /\ eff_trig_tpl the_code c w_inputs_plain = false
-  /\ eff_trig_sup the_code c = false /\ support_consistent c = true /\ trig_py c w_inputs_plain = false
-  /\ path_in [[114]; [66]] (influence_set the_code c w_inputs_plain) = true.
+  /\ eff_trig_sup the_code c = false /\ support_consistent c = true /\ trig_py the_code c w_inputs_plain = false
+  /\ trig_sup_refs the_code c = false
+  /\ path_in [[114]; [66]] (influence_set the_code c w_inputs_plain) = true
+  /\ path_in [[112]; [98]] (influence_set the_code c w_inputs_plain) = true
+  /\ path_in [[112]; [117]] (influence_set the_code c w_inputs_plain) = false.
+Proof. vm_compute. repeat split; reflexivity. Qed.
+
+(* configuration inputs (properties.yaml, --configuration files) influence the output, are excluded from the completeness
+   theorem, and are indeed not listed *)
+Lemma example_config_not_listed :
+  let c := w_cfg SAsNeeded false None None in
+  is_config_input c [[99]] = true /\ is_config_input c [[121]] = true
+  /\ path_in [[99]] (all_influences the_code c w_inputs_plain) = true
+  /\ path_in [[99]] (listed c w_inputs_plain) = false /\ path_in [[121]] (listed c w_inputs_plain) = false.
 Proof. vm_compute. repeat split; reflexivity. Qed.
 
 (* the repaired F-LIST-ONLY-POD: `--generate-support only --omit-serialization-support` lists nothing and creates nothing *)
@@ -126,25 +120,32 @@ Lemma example_only_pod :
   let c := w_cfg SOnly true None None in
   snd (fst (run the_code (lo_of c) w_inputs_plain fs_empty)) = []
   /\ snd (run the_code (real_of c) w_inputs_plain fs_empty) = Ok
-  /\ created c w_inputs_plain [[111]; [110]; [115; 46; 104]] = false.
+  /\ created c w_inputs_plain [[111]; [110]; [115; 46; 104]] = None.
 Proof. vm_compute. repeat split; reflexivity. Qed.
 
 Lemma example_rejected : rejected (w_cfg SAlways true None None) = true.
 Proof. vm_compute. reflexivity. Qed.
 
-(* a run that fails (no template for namespaces) is outside the premise of list_outputs_exact *)
-Lemma example_no_template :
-  let c := with_flags (w_cfg SNever false (Some [w_tf 98 true (Some CStructure)]) None)
-             {| f_support := SNever; f_omit := false; f_ns := true; f_dry := false; f_lo := false; f_li := false; f_lc := false;
-                f_now := false; f_embed := false |} in
-  snd (run the_code c w_inputs_plain fs_empty) = NoTemplate.
-Proof. vm_compute. reflexivity. Qed.
+(* runs that fail are outside the premise of list_outputs_exact: no template for namespaces; --no-overwrite over an existing
+   file; an output path whose parent is a regular file *)
+Definition w_flags_x (ns now : bool) : flags :=
+  {| f_support := SNever; f_omit := false; f_ns := ns; f_dry := false; f_lo := false; f_li := false; f_lc := false;
+     f_now := now; f_embed := false |}.
+Lemma example_failures :
+  let c1 := with_flags (w_cfg SNever false (Some [w_tf 98 true (Some CStructure)]) None) (w_flags_x true false) in
+  let c2 := with_flags (w_cfg SNever false None None) (w_flags_x false true) in
+  let f2 := fst (fst (run the_code c2 w_inputs_plain fs_empty)) in
+  let f3 : fs := fun q => if path_eqb q [[111]; [114]] then Some (EFile 7 420) else None in
+  snd (run the_code c1 w_inputs_plain fs_empty) = NoTemplate
+  /\ snd (run the_code c2 w_inputs_plain fs_empty) = Ok /\ snd (run the_code c2 w_inputs_plain f2) = Exists
+  /\ snd (run the_code c2 w_inputs_plain f3) = IoError.
+Proof. vm_compute. repeat split; reflexivity. Qed.
 
 (* two custom templates with the same basename in different sub-directories are both listed *)
 Definition w_nested_dir : list tfile :=
   [w_tf 65 true (Some CAny);
-   {| tf_name := [109; 47; 98]; tf_path := [[112]; [109]; [98]]; tf_j2 := true; tf_py := false; tf_cls := None |};
-   {| tf_name := [115; 47; 98]; tf_path := [[112]; [115]; [98]]; tf_j2 := true; tf_py := false; tf_cls := None |}].
+   {| tf_name := [109; 47; 98]; tf_path := [[112]; [109]; [98]]; tf_j2 := true; tf_py := false; tf_cls := None; tf_refs := []; tf_dyn := false |};
+   {| tf_name := [115; 47; 98]; tf_path := [[112]; [115]; [98]]; tf_j2 := true; tf_py := false; tf_cls := None; tf_refs := []; tf_dyn := false |}].
 Lemma example_same_basename_both_listed :
   let c := w_cfg SNever false (Some w_nested_dir) None in
   path_in [[112]; [109]; [98]] (listed c w_inputs_plain) = true /\ path_in [[112]; [115]; [98]] (listed c w_inputs_plain) = true.
